@@ -21,7 +21,10 @@ EXPLANATION = (
     "run only on its miss. (prefix-boundary) each of the four prefix matchers accepts exactly when the prefix is empty, or "
     "path == prefix, or path starts with prefix and the remainder starts with '/'. (fast-path-guard) the escape-free segment "
     "splitter runs only when the path contains no '~', otherwise json_pointer::parse is used; \"\" -> no tokens, \"/\" -> one "
-    "empty token. Not decided: equality of the stack/heap splitter with json_pointer::parse for 0..40 segments (loop-carried "
+    "empty token. (splitter-conserves-segments) the tokens come from split('/'), every token fetched in the loop is stored "
+    "(stack slot or overflow vector) before the next is fetched, and the token iterator is never passed through an adapter that "
+    "can drop elements (zip as receiver, take_while, filter, step_by, ...). Not decided: full equality of the stack/heap splitter "
+    "with json_pointer::parse for 0..40 segments (loop-carried "
     "values), the derive macro's generated code, decoding of arbitrary body bytes (serde/beve)."
 )
 ASSUMPTIONS = ["str::strip_prefix / starts_with / split have their std semantics"]
@@ -245,6 +248,48 @@ def run(facts, R):
                 R.check("array" in seg and seg.count("''") == 0, "fast-path-guard", ds.path, "\"\" -> no tokens", "empty path passes %s" % seg, t.get("span"), seg)
             elif any("eq(" in x and "is True" in x for x in fs):
                 R.check("''" in seg, "fast-path-guard", ds.path, "\"/\" -> one empty token", "\"/\" passes %s" % seg, t.get("span"), seg)
+    # splitter-conserves-segments: the token iterator produced by split('/') flows only through item-conserving operations.
+    # std semantics: as the *receiver* of zip an iterator loses the element it yielded when the other side ran out first;
+    # take_while/map_while/skip_while consume the first failing element; filter/filter_map/step_by/nth drop elements.
+    LOSSY = ("zip", "take_while", "map_while", "skip_while", "filter", "filter_map", "step_by", "nth", "nth_back", "last", "rev", "skip", "take", "chain")
+    CONSERVING_BY_REF = ("take",)   # by_ref().take(n) consumes exactly the n items it yields
+    split_calls = [(i, t) for i, t in ds.calls() if t["callee"]["name"] in ("split", "split_terminator", "splitn", "rsplit", "split_inclusive")]
+    R.floor("splitter-conserves-segments", len(split_calls), 1, "split('/') sites in the fast path")
+    for i, t in split_calls:
+        R.check(t["callee"]["name"] == "split" and render(dsym.op(t["args"][1])) in ("'/'", "47"), "splitter-conserves-segments", ds.path, "tokens = split('/')",
+                "segments are produced by %s(%s)" % (t["callee"]["name"], render(dsym.op(t["args"][1]))), t.get("span"))
+    for i, t in ds.calls():
+        nm = t["callee"]["name"]
+        if t["callee"].get("trait") != "std::iter::Iterator" or nm not in LOSSY or not t["args"]:
+            continue
+        recv = dsym.op(t["args"][0])
+        rtxt = render(recv)
+        is_tokens = "split(" in rtxt or any(x[0] == "local" and "Split<" in ds.local_ty(x[1]) for x in walk(recv)) or "Split<" in (t["callee"].get("self_ty") or "")
+        if not is_tokens:
+            continue
+        if nm == "skip" and "split(" in rtxt and "by_ref" not in rtxt:
+            continue   # split('/').skip(1) to drop the leading empty token is equivalent to strip_prefix('/')
+        if nm in CONSERVING_BY_REF and ("by_ref" in rtxt or "&mut" in (t["callee"].get("self_ty") or "")):
+            continue
+        R.bad("splitter-conserves-segments", ds.path, "tokens." + nm,
+              "the segment iterator is passed through `%s`, which can drop reference tokens (e.g. as the receiver of zip the element yielded when "
+              "the other side is exhausted is lost): a mounted struct would not see every token of a deep path" % nm, t.get("span"))
+    # each token obtained in a plain loop is stored on every path before the next one is fetched
+    nxt = [(i, t) for i, t in ds.calls() if t["callee"]["name"] == "next" and "Split<" in (t["callee"].get("self_ty") or "")]
+    for i, t in nxt:
+        some = [x for x in sorted(ds.live_blocks()) if any(f["val"] == "Some" and f["expr"][0] == "call" and len(f["expr"]) > 3 and f["expr"][3] == i for f in facts_at(ds, dsym, facts, x))]
+        heads = [x for x in some if not any(p in some for p in ds.preds()[x])]
+        stores = []
+        for x, y, st in ds.assigns():
+            if any(isinstance(e, dict) and "index" in e for e in st["place"]["p"]) and "next(" in render(dsym.rvalue(st["rv"])):
+                stores.append((x, y))
+        for x, tt in ds.calls():
+            if tt["callee"]["name"] == "push" and len(tt["args"]) == 2 and "next(" in render(dsym.op(tt["args"][1])):
+                stores.append(term_pt(ds, x))
+        for h in heads:
+            w = must_cross(ds, [(h, 0)], [term_pt(ds, i)] + return_points(ds), stores, after_start=False)
+            R.check(bool(stores) and w is None, "splitter-conserves-segments", ds.path, "every token fetched is stored",
+                    "a token obtained from the segment iterator can be discarded before the next one is fetched", t.get("span"), "stack[count] = seg or overflow.push(seg) on every path", path=w)
     tc = [(i, t) for i, t in ds.calls() if t["callee"]["name"] == "contains"]
     for i, t in tc:
         a = dsym.op(t["args"][1])
